@@ -26,6 +26,7 @@ func init() {
 		Roles: map[string]Role{
 			"main":       {N: func(t string) int { return tierN(t, 64, 4000) }, Case: c14Case},
 			"concurrent": {N: func(t string) int { return tierN(t, 48, 1500) }, Case: c14Concurrent},
+			"bigbatch":   {N: func(t string) int { return tierN(t, 3, 12) }, Case: c14BigBatch},
 		},
 	})
 	register(&Prop{
@@ -492,5 +493,56 @@ func c14Concurrent(tier string, seed int64, idx int, scratch string) rt.CaseResu
 	if idx == 0 {
 		c.Sample = map[string]any{"concurrent_program_clients": len(p.Clients), "ops": len(ops)}
 	}
+	return c
+}
+
+// c14BigBatch: one transaction end / one reopen produces more than 1000 unreachable contents at
+// once (the cleaner works in chunks of 1000).
+func c14BigBatch(tier string, seed int64, idx int, scratch string) rt.CaseResult {
+	var c rt.CaseResult
+	rt.SetWatchdogLimit(3 * time.Minute)
+	n := 1100 + 250*(idx%4)
+	var steps []seqrun.Step
+	steps = append(steps, seqrun.Step{Op: "begin", Actor: 0, Level: 1 + idx%2})
+	for i := 0; i < n; i++ {
+		steps = append(steps, seqrun.Step{Op: "set", Actor: 0, Key: fmt.Sprintf("b%04d", i%(n/2+idx%3)), Tag: fmt.Sprintf("bb%d-%d", idx, i), Len: 5})
+	}
+	end := []string{"rollback", "commit", "reopen"}[idx%3]
+	switch end {
+	case "rollback", "commit":
+		steps = append(steps, seqrun.Step{Op: end, Actor: 0})
+	default:
+		steps = append(steps, seqrun.Step{Op: "commit", Actor: 0})
+		// overwrite everything once more without collecting, then reopen: Load hands > 1000 files to the cleaner
+		for i := 0; i < n/2; i++ {
+			steps = append(steps, seqrun.Step{Op: "set", Actor: -1, Key: fmt.Sprintf("b%04d", i), Tag: fmt.Sprintf("bb%d-o%d", idx, i), Len: 5})
+		}
+		steps = append(steps, seqrun.Step{Op: "reopen", Actor: -1})
+	}
+	env, err := dbx.Open(dbx.Options{Mode: dbx.Inline, Dir: filepath.Join(scratch, "db"), SendDuration: sendDur(idx)})
+	if err != nil {
+		c.Violate("open-failed", err.Error(), nil)
+		return c
+	}
+	r := seqrun.NewRunner(env, seqrun.Options{})
+	defer func() { r.Env.Close() }()
+	replay := map[string]any{"seed": seed, "case": idx, "writes_in_transaction": n, "end": end}
+	for i, s := range steps {
+		if i%200 == 0 {
+			rt.Beat()
+		}
+		if m := r.Do(i, s); m != nil {
+			c.Violate(m.Sig, m.Error(), replay)
+			return c
+		}
+	}
+	if !quiesce(&c, r.Env, replay) {
+		return c
+	}
+	c.Evals++
+	if leakCheck(&c, r.Env, "after-big-batch-"+end, replay) {
+		c.AddDistinct(fmt.Sprintf("bigbatch/%s/%d", end, n))
+	}
+	c.Sample = map[string]any{"scenario": "more than 1000 unreachable contents in one batch", "writes": n, "end": end}
 	return c
 }
